@@ -445,8 +445,8 @@ fn validate(ctx: &Context<impl Channel>) -> Result<(), Error> {
     if p_out.is_empty() {
         return Err(Error::MissingOutputParties);
     }
-    for output_party in p_out {
-        if *output_party >= p_max {
+    for (idx, output_party) in p_out.iter().enumerate() {
+        if *output_party >= p_max || p_out[..idx].contains(output_party) {
             return Err(Error::InvalidOutputParty(*output_party));
         }
     }
